@@ -608,6 +608,9 @@ func runC01(c *core.Ctx) {
 	offsRules(c)
 	pairingRules(c)
 	// the focus type equals the field type (so the typed store covers exactly the field): shared with C02
+	// ... and nothing but those constructors makes or re-types a lens (shared with C02)
+	c.Doc("construct-census", 1, "lens values are constructed only by NewLens / NewReflector")
+	constructCensus(c)
 	c.Doc("guard-dominates", 2, "every returning path of NewLens/NewReflector passed the type guard")
 	c.Doc("guard-strength-B", 2, "the guard is type identity between the entry's field type and the focus type")
 	guardRules(c)
